@@ -559,7 +559,23 @@ func (c *Ctx) addrOf(e ast.Expr, s *State) Value {
 			c.declareFun(fn, 1, sInt)
 			r := app(fn, base)
 			s.assume(lt("0", r))
-			c.note("pointers to struct fields (&p.f) are opaque: reads/writes through them are not connected to the field")
+			// the pointer reads the value the field holds now (scalar fields); later writes to the field or through the
+			// pointer are not connected - the functions under contract take such addresses only to publish read-only
+			// views (optional protobuf fields)
+			ft := sel.Obj().Type()
+			if _, isStruct := ft.Underlying().(*types.Struct); !isStruct && !c.isStructByValueField(sel.Obj().(*types.Var)) {
+				if fv, ok := sel.Obj().(*types.Var); ok {
+					cur := c.readField(s, base, bt, fv)
+					ls := leaves(ft)
+					ts := flatten(cur, ft)
+					for i, l := range ls {
+						key := "F.box$" + typeKey(ft) + ".v" + l
+						arr := c.heapGet(s, key, sA1)
+						s.assume(eq("(select "+arr+" "+r+")", ts[i]))
+					}
+				}
+			}
+			c.note("pointers to struct fields (&p.f) read the value the field had when the address was taken; writes to the field or through the pointer afterwards are not connected")
 			return IntV{r}
 		}
 	case *ast.IndexExpr:
